@@ -1,7 +1,7 @@
 (* C05 -- Proofs bind every public input and every transmitted value.
    Property theorems only: each is closed by `exact <lemma>` and followed by Print Assumptions. *)
 From Coq Require Import ZArith Znumtheory List Bool Lia.
-From LT Require Import Zbase gen_Consts gen_FSInputs FsModel FsLemmas VtmfVerModel VtmfVerLemmas.
+From LT Require Import Zbase gen_Consts gen_FSInputs FsModel FsLemmas VtmfVerModel VtmfVerLemmas SkcModel SkcLemmas.
 Import ListNotations.
 Local Open Scope Z_scope.
 
@@ -221,6 +221,79 @@ Theorem C05_or_plus_q_rejected : forall H G y1 y2 g1 g2 c1 c2 r1 r2, 0 < gq G ->
 Proof. exact or_plus_q_rejected. Qed.
 Print Assumptions C05_or_plus_q_rejected.
 
+
+(* ---- Pedersen commitments and the shuffle of known content (current code, after e411aec / 25cc964) ---------------- *)
+Theorem C05_test_membership_spec : forall K c, test_membership K c = true <-> 0 < c < kp K /\ powm c (kq K) (kp K) = 1.
+Proof. exact test_membership_spec. Qed.
+Print Assumptions C05_test_membership_spec.
+
+Theorem C05_ped_accept_iff : forall K c r ms,
+  ped_verify K c r ms = Accept <-> 0 <= r < kq K /\ 0 < c < kp K /\ recommit K r ms = Some c.
+Proof. exact ped_accept_iff. Qed.
+Print Assumptions C05_ped_accept_iff.
+
+(* 0 <= r < q: a negative randomizer is refused (25cc964), the commitment lies in (0,p) *)
+Theorem C05_ped_range_rules : forall K c r ms, ped_verify K c r ms = Accept -> 0 <= r < kq K /\ 0 < c < kp K.
+Proof. exact ped_range_rules. Qed.
+Print Assumptions C05_ped_range_rules.
+
+(* an opening binds its randomizer unconditionally: two accepted openings of the same (c, m) have the same r *)
+Theorem C05_ped_randomizer_bound : forall K c r r' ms,
+  prime (kp K) -> prime (kq K) -> powm (kh K) (kq K) (kp K) = 1 -> kh K mod kp K <> 1 -> bits (kq K) <= TMCG_MAX_FPOWM_T ->
+  ped_verify K c r ms = Accept -> ped_verify K c r' ms = Accept -> r = r'.
+Proof. exact ped_randomizer_bound. Qed.
+Print Assumptions C05_ped_randomizer_bound.
+
+(* REFUTED on the code as it is: "messages not below q are refused" -- Verify does not range-check m_i, so m + q opens
+   the same commitment while it fits the power table (known findings pedersen.m.plusq, pedersen.m.negfar) *)
+Theorem C05_pedersen_message_range_refuted : forall K c r g m, 0 < kp K -> 0 < kq K -> 0 <= m -> kg K = [g] ->
+  powm g (kq K) (kp K) = 1 -> bits (m + kq K) <= ktl K -> 0 < TMCG_MAX_FPOWM_N ->
+  ped_verify K c r [m + kq K] = ped_verify K c r [m].
+Proof. exact ped_message_plus_q. Qed.
+Print Assumptions C05_pedersen_message_range_refuted.
+
+Theorem C05_skc_accept_iff : forall H K le c ms P,
+  skc_verify H K le c ms P = Accept <->
+  length (s_f P) = length ms /\ S (length (s_fD P)) = length ms /\
+  test_membership K (s_cd P) = true /\ test_membership K (s_ca P) = true /\ test_membership K (s_cD P) = true /\
+  0 <= s_z P < kq K /\ Forall (fun x => 0 <= x < kq K) (s_f P) /\
+  0 <= s_zD P < kq K /\ Forall (fun x => 0 <= x < kq K) (s_fD P) /\
+  let x := skc_x H K le ms in
+  let e := skc_e H K le ms x P in
+  exists ce cae einv,
+    mpz_powm c e (kp K) = Some ce /\ ped_verify K ((ce * s_cd P) mod kp K) (s_z P) (s_f P) = Accept /\
+    mpz_powm (s_ca P) e (kp K) = Some cae /\ ped_verify K ((cae * s_cD P) mod kp K) (s_zD P) (s_fD P ++ [0]) = Accept /\
+    invm e (kq K) = Some einv /\
+    (prod_rhs (kq K) x ms 1 * e) mod kq K = prod_lhs (kq K) ((e * x) mod kq K) einv (s_f P) (s_fD P) true 1.
+Proof. exact skc_accept_iff. Qed.
+Print Assumptions C05_skc_accept_iff.
+
+Theorem C05_skc_range_rules : forall H K le c ms P, skc_verify H K le c ms P = Accept ->
+  0 <= s_z P < kq K /\ Forall (fun x => 0 <= x < kq K) (s_f P) /\
+  0 <= s_zD P < kq K /\ Forall (fun x => 0 <= x < kq K) (s_fD P).
+Proof. exact skc_range_rules. Qed.
+Print Assumptions C05_skc_range_rules.
+
+Theorem C05_skc_member_rules : forall H K le c ms P, skc_verify H K le c ms P = Accept ->
+  (0 < s_cd P < kp K /\ powm (s_cd P) (kq K) (kp K) = 1) /\
+  (0 < s_ca P < kp K /\ powm (s_ca P) (kq K) (kp K) = 1) /\
+  (0 < s_cD P < kp K /\ powm (s_cD P) (kq K) (kp K) = 1).
+Proof. exact skc_member_rules. Qed.
+Print Assumptions C05_skc_member_rules.
+
+(* the response z is bound as an exact value: no second z verifies with the same commitments *)
+Theorem C05_skc_z_bound : forall H K le c ms P z',
+  prime (kp K) -> prime (kq K) -> powm (kh K) (kq K) (kp K) = 1 -> kh K mod kp K <> 1 -> bits (kq K) <= TMCG_MAX_FPOWM_T ->
+  skc_verify H K le c ms P = Accept ->
+  skc_verify H K le c ms (mk_skc (s_cd P) (s_cD P) (s_ca P) (s_f P) z' (s_fD P) (s_zD P)) = Accept -> z' = s_z P.
+Proof. exact skc_z_bound. Qed.
+Print Assumptions C05_skc_z_bound.
+
+Theorem C05_skc_z_shifted_rejected : forall H K le c ms P k, 0 < kq K -> k <> 0 -> 0 <= s_z P < kq K ->
+  skc_verify H K le c ms (mk_skc (s_cd P) (s_cD P) (s_ca P) (s_f P) (s_z P + k * kq K) (s_fD P) (s_zD P)) <> Accept.
+Proof. exact skc_z_shifted_rejected. Qed.
+Print Assumptions C05_skc_z_shifted_rejected.
+
 (* ---- non-vacuity / witnesses (p = 23, q = 11, g = 2, h = 3) ---------------------------------------------- *)
 Definition G23 : grp := mk_grp 23 11 2 3 2 3 256.
 Definition H23 : list Z -> Z := table_hash [([23; 11; 2; 8; 9], 6)].
@@ -240,3 +313,19 @@ Example C05_nonvacuous_keyint : keyint_verify G23 8 9 1 8 = Accept /\ keyint_ver
 Proof. vm_compute. repeat split; congruence. Qed.
 Example C05_nonvacuous_or : or_verify (fun _ => 7) G23 4 9 2 3 3 4 5 6 = Accept /\ or_verify (fun _ => 7) G23 4 9 2 3 (3 + 11) 4 5 6 = Reject.
 Proof. vm_compute. split; reflexivity. Qed.
+
+(* Pedersen: one generator g = 2 of order 11 modulo 23, h = 3; 2^5 * 3^4 = 32 * 81 = 2592 = 16 (mod 23) *)
+Definition K23 : pkey := mk_pkey 23 11 3 [2].
+Example C05_nonvacuous_ped : ped_verify K23 16 4 [5] = Accept /\ ped_verify K23 16 (4 - 11) [5] = Reject /\
+  ped_verify K23 16 4 [5 + 11] = Reject /\ ped_verify (mk_pkey 23 11 3 [2]) 16 4 [1 + 11] = ped_verify K23 16 4 [1].
+Proof. vm_compute. repeat split; reflexivity. Qed.
+
+(* non-vacuity: a proof made by GrothSKC::Prove_noninteractive for a 128/64-bit commitment key (record of the harness),
+   accepted by the model with the logged hash oracle; the same proof with z + q is refused *)
+Definition Kex : pkey := mk_pkey 302916002200284782502554726193907539953 17084552515577904043 126245851261019830363192692450603277685 [226634704922142527756371474700428482976; 237906121319774078168410767651394123632; 255014836776580823509221323484533008121].
+Definition Hex : list Z -> Z := table_hash [([226634704922142527756371474700428482976; 237906121319774078168410767651394123632; 255014836776580823509221323484533008121; 13339997612621731408; 13905673840040254954; 13002963652922272783; 302916002200284782502554726193907539953; 17084552515577904043; 126245851261019830363192692450603277685], 108278089586679642549613370307261683309019008659833183695186269152254624772034); ([226634704922142527756371474700428482976; 237906121319774078168410767651394123632; 255014836776580823509221323484533008121; 13339997612621731408; 13905673840040254954; 13002963652922272783; 1903144898; 229278802278434982938895642933652113402; 15296960207150666273681383615283150012; 152208915448259559908949887770140986040], 25939981182054364156392843465971687103698328476424177936545056879261190482646)].
+Definition Pex : skc_proof := mk_skc 229278802278434982938895642933652113402 15296960207150666273681383615283150012 152208915448259559908949887770140986040 [6168690600214489515; 7801210722337845212; 2915728748878536366] 1438154580988781284 [2614924089242855529; 15326065337876127063] 4091267996460408482.
+Example C05_nonvacuous_skc_accept : skc_verify Hex Kex 32 77563117293965163431295713505159591073 [13339997612621731408; 13905673840040254954; 13002963652922272783] Pex = Accept.
+Proof. vm_compute. reflexivity. Qed.
+Example C05_nonvacuous_skc_shifted : skc_verify Hex Kex 32 77563117293965163431295713505159591073 [13339997612621731408; 13905673840040254954; 13002963652922272783] (mk_skc (s_cd Pex) (s_cD Pex) (s_ca Pex) (s_f Pex) (s_z Pex + kq Kex) (s_fD Pex) (s_zD Pex)) = Reject.
+Proof. vm_compute. reflexivity. Qed.
